@@ -38,7 +38,8 @@ REQUIRED_CELLS = {
     'quick': ['single:tgt=nd', 'single:tgt=sv', 'single:tgt=S', 'single:tgt=mol', 'single:tgt=mass', 'single:xpkg',
               'single:ph=1', 'single:ph=0', 'single:form=dict', 'single:form=str', 'single:form=list',
               'single:basis=mol', 'single:basis=wt_copy', 'single:basis=wt_coeff', 'single:basis=wt_setter',
-              'single:basis=mol_from_wt', 'sets:kind=par', 'sets:kind=ser', 'sets:kind=sys', 'sets:xpkg',
+              'single:basis=mol_from_wt', 'single:derive=copy_other', 'single:derive=copy_then_setter',
+              'single:derive=setter_roundtrip', 'sets:derive=copy_other', 'sets:derive=members_copy_other', 'sets:kind=par', 'sets:kind=ser', 'sets:kind=sys', 'sets:xpkg',
               'sets:ph=1', 'sets:basis=wt', 'outcome:InfeasibleRegion', 'outcome:returned',
               'parser:ph=0', 'parser:ph=1'],
     'thorough': [],
@@ -137,18 +138,70 @@ def prop_single(ch, ctx):
     if ample:
         feed = rx.make_ample(feed, ref if basis == 'mol' else rx.ref_of(spec, pnames, 'mol', MW, phases))
     sphase = ch.choice('stream.phase', list(rx.PHASES)) if not tagged else None
-    region = f'kind=R,basis={basis},ph={int(tagged)},tgt={tgt},xpkg={int(xpkg)}'
-    out = rx.apply_and_judge(ctx, 'react', region, rxn, ref, basis, pid, feed, tgt, phases, qid,
-                             stream_phase=sphase or 'l', rtol=TOL)
-    # the reaction object itself is not changed by being applied
+    # Multi-step: derive the counterpart on the other (or the same) basis FROM the reaction, then apply both the
+    # counterpart and the original to copies of the same feed (either order): "both bases give the same result on
+    # a stream" also requires the original to be still right after its counterpart was derived from it.
+    other = 'wt' if basis == 'mol' else 'mol'
+    derive = ch.choice('derive', ['none', 'copy_other', 'copy_other', 'copy_same', 'copy_plain', 'copy_then_setter',
+                                  'copy_roundtrip', 'coefficients', 'setter_roundtrip'])
+    suffix = '' if derive == 'none' else f',after={derive}'
+    region = f'kind=R,basis={basis},ph={int(tagged)},tgt={tgt},xpkg={int(xpkg)}' + suffix
+    steps = [('react', rxn, ref, basis)]
+    if derive != 'none':
+        ctx.cell(f'single:derive={derive}')
+        rd = f'derive={derive},basis={basis},ph={int(tagged)}'
+        cp, cb = None, other
+        if derive == 'copy_other':
+            cp = ctx.call('derive', rxn.copy, other, region=rd)
+        elif derive == 'copy_same':
+            cp, cb = ctx.call('derive', rxn.copy, basis, region=rd), basis
+        elif derive == 'copy_plain':
+            cp, cb = ctx.call('derive', rxn.copy, region=rd), basis
+        elif derive == 'copy_then_setter':
+            cp = ctx.call('derive', rxn.copy, region=rd)
+            def _set():
+                cp.basis = other
+            ctx.call('derive', _set, region=rd)
+        elif derive == 'copy_roundtrip':
+            mid = ctx.call('derive', rxn.copy, other, region=rd)
+            cp, cb = ctx.call('derive', mid.copy, basis, region=rd), basis
+        elif derive == 'coefficients':
+            cp, cb = rx.build_reaction(ch, 'rc', spec, pid, 'dict', 'wt_coeff' if other == 'wt' else 'mol', phases, True,
+                                       ctx, site='derive', region=rd)
+        if cp is not None:
+            if cp is rxn:
+                ctx.fail(f'derive|{rd}|same-object', 'copy returned the reaction itself')
+            _expect_fields(ctx, cp, spec, pnames, cb, MW, phases, rd)
+            cstep = ('react.counterpart', cp, rx.ref_of(spec, pnames, cb, MW, phases), cb)
+            steps = [cstep, steps[0]] if ch.bool('derive.original_last') else [steps[0], cstep]
+    out = None
+    for site, obj, rf, bs in steps:
+        reg = f'kind=R,basis={bs},ph={int(tagged)},tgt={tgt},xpkg={int(xpkg)}' + suffix
+        o = rx.apply_and_judge(ctx, site, reg, obj, rf, bs, pid, feed, tgt, phases, qid,
+                               stream_phase=sphase or 'l', rtol=TOL)
+        if obj is rxn:
+            out = o
+    if derive == 'setter_roundtrip':
+        # the original itself visits the other basis and comes back: right in both
+        def _to(b):
+            rxn.basis = b
+        ctx.call('derive', _to, other, region=f'derive={derive},basis={basis},ph={int(tagged)}')
+        rx.apply_and_judge(ctx, 'react.rebased', f'kind=R,basis={other},ph={int(tagged)},tgt={tgt},xpkg={int(xpkg)}' + suffix,
+                           rxn, rx.ref_of(spec, pnames, other, MW, phases), other, pid, feed, tgt, phases, qid,
+                           stream_phase=sphase or 'l', rtol=TOL)
+        ctx.call('derive', _to, basis, region=f'derive={derive},basis={basis},ph={int(tagged)}')
+        rx.apply_and_judge(ctx, 'react', region, rxn, ref, basis, pid, feed, tgt, phases, qid,
+                           stream_phase=sphase or 'l', rtol=TOL)
+    # the reaction object itself is not changed by being applied or by having counterparts derived from it
     _expect_unchanged = np.array(rxn.stoichiometry.to_array(), float)
     nu_ref, _ = rx.ref_stoich(spec, pnames, basis, MW, phases)
-    if not np.abs(_expect_unchanged - nu_ref).max() <= 1e-12 * max(1.0, np.abs(nu_ref).max()) or rxn.X != X:
-        ctx.fail(f'react|{region}|reaction-modified', 'applying the reaction changed its stoichiometry or X')
+    if not np.abs(_expect_unchanged - nu_ref).max() <= 1e-12 * max(1.0, np.abs(nu_ref).max()) or rxn.X != X \
+            or rxn.basis != basis:
+        ctx.fail(f'react|{region}|reaction-modified', 'applying the reaction / deriving its counterpart changed its stoichiometry, X or basis')
     if not out['raised']:
         changed = int((np.abs(out['cmp_out'] - out['cmp_in']) > 0).sum())
         if X > 0 and np.atleast_2d(feed)[ref.idx if tagged else (0, ref.idx)] > 0 and changed >= 2:
-            ctx.nontriv(['single', pid, qid, form, basis_mode, list(phases), spec.summary(), tgt, sphase,
+            ctx.nontriv(['single', pid, qid, form, basis_mode, derive, list(phases), spec.summary(), tgt, sphase,
                          _zero_pattern(feed)])
 
 
@@ -197,6 +250,8 @@ def prop_sets(ch, ctx):
         r, b = rx.build_reaction(ch, f'r{i}', spec, pid, form, mode, phases, True, ctx, site='build', region=region_b)
         specs.append(spec); rxns.append(r)
         refs.append(rx.ref_of(spec, pnames, set_basis, MW, phases))
+    groups = None
+    members = None
     if kind == 'par':
         obj = ctx.call('build.par', tmo.ParallelReaction, rxns, region=region_b)
         ref = rx.RefRxn('par', refs)
@@ -244,15 +299,60 @@ def prop_sets(ch, ctx):
         feed = rx.make_ample(feed, rx.RefRxn('par', refs_mol))
     sphase = ch.choice('stream.phase', list(rx.PHASES)) if not tagged else None
     kk = {'par': 'P', 'ser': 'S', 'sys': 'Y'}[kind]
-    region = f'kind={kk},basis={set_basis},ph={int(tagged)},tgt={tgt},xpkg={int(xpkg)}'
     tmo.settings.set_thermo(rx.thermo(qid))
-    out = rx.apply_and_judge(ctx, 'react', region, obj, ref, set_basis, pid, feed, tgt, phases, qid,
-                             stream_phase=sphase or 'l', rtol=TOL)
+    # Multi-step (see prop_single): derive a counterpart of the whole set / of every member, then apply the
+    # counterpart and the original to copies of the same feed in either order.
+    other = 'wt' if set_basis == 'mol' else 'mol'
+    derive = ch.choice('derive', ['none', 'copy_other', 'copy_other', 'copy_same', 'members_copy_other',
+                                  'members_copy_other', 'members_roundtrip'])
+    suffix = '' if derive == 'none' else f',after={derive}'
+    region = f'kind={kk},basis={set_basis},ph={int(tagged)},tgt={tgt},xpkg={int(xpkg)}' + suffix
+
+    def ref_tree(b):
+        fs = [rx.ref_of(sp, pnames, b, MW, phases) for sp in specs]
+        if kind in ('par', 'ser'):
+            return rx.RefRxn(kind, fs)
+        mem, k = [], 0
+        for gk, size in groups:
+            part = fs[k:k + size]; k += size
+            mem.append(part[0] if gk == 'rxn' else rx.RefRxn(gk, part))
+        return rx.RefRxn('sys', mem)
+
+    steps = [('react', obj, ref, set_basis)]
+    if derive != 'none':
+        ctx.cell(f'sets:derive={derive}')
+        rd = f'derive={derive},kind={kk},basis={set_basis},ph={int(tagged)}'
+        cb = set_basis if derive in ('copy_same', 'members_roundtrip') else other
+        def member_copy(m, b):
+            if derive == 'members_roundtrip':
+                return m.copy(other).copy(b)
+            return m.copy(b)
+        if kind == 'sys':
+            # a ReactionSystem has no copy(): its counterpart is the system of its members' counterparts
+            cp = ctx.call('derive', lambda: tmo.ReactionSystem(*[member_copy(m, cb) for m in members]), region=rd)
+        elif derive.startswith('members'):
+            # counterparts of the items (ReactionItem.copy returns independent Reactions) collected into a new set
+            cp = ctx.call('derive', lambda: type(obj)([member_copy(it, cb) for it in obj]), region=rd)
+        else:
+            cp = ctx.call('derive', obj.copy, cb, region=rd)
+        if cp is obj or cp._basis != cb:
+            ctx.fail(f'derive|{rd}|fields', f'counterpart basis {cp._basis!r} (expected {cb!r}) or the set itself')
+        cstep = ('react.counterpart', cp, ref_tree(cb), cb)
+        steps = [cstep, steps[0]] if ch.bool('derive.original_last') else [steps[0], cstep]
+    out = None
+    for site, o_, rf, bs in steps:
+        reg = f'kind={kk},basis={bs},ph={int(tagged)},tgt={tgt},xpkg={int(xpkg)}' + suffix
+        o = rx.apply_and_judge(ctx, site, reg, o_, rf, bs, pid, feed, tgt, phases, qid,
+                               stream_phase=sphase or 'l', rtol=TOL)
+        if o_ is obj:
+            out = o
+    if obj._basis != set_basis:
+        ctx.fail(f'react|{region}|reaction-modified', f'basis label of the original is now {obj._basis!r}')
     if not out['raised']:
         changed = int((np.abs(out['cmp_out'] - out['cmp_in']) > 0).sum())
         active = sum(1 for s, f in zip(specs, refs) if s.X > 0)
         if active and changed >= 2:
-            ctx.nontriv(['sets', pid, qid, struct, set_basis, set_copy_wt, list(phases), [s.summary() for s in specs],
+            ctx.nontriv(['sets', pid, qid, struct, set_basis, set_copy_wt, derive, list(phases), [s.summary() for s in specs],
                          tgt, sphase, _zero_pattern(feed)])
 
 
